@@ -181,6 +181,7 @@ fn main() {
             match what.parse::<u64>() {
                 Ok(variant) => gen_tf::conc_worker(variant, &o),
                 Err(_) if what == "dec" => gen_yuv::conc_worker(&o),
+                Err(_) if what == "enc" => gen_yuv::conc_worker_enc(&o),
                 Err(_) => gen_color::conc_worker(&what, &o),
             }
         }
